@@ -350,13 +350,25 @@ func CheckRoutes(eng typed.Engine, s *rs.Schema, c Case) (fs []core.Finding, run
 		if lvl == "repr" {
 			tree = repr
 		}
-		opts := ref.RouteOptions(tree)
+		opts := ref.RouteOptionsWithDonor(tree)
+		// the donor: the same value built by the default route; its sub-nodes are assigned by route 10
+		var donor datamodel.Node
+		core.Guard(func() {
+			if d, err := ref.BuildRouted(eng.Proto(s, t.Name, lvl == "repr"), tree, nil, false); err == nil && d != nil {
+				donor = d
+				if tn, ok := d.(schema.TypedNode); ok && lvl == "repr" {
+					donor = tn.Representation()
+				}
+			}
+		})
 		for pos, alts := range opts {
 			for _, a := range alts {
 				routes := ref.Routes{pos: a}
 				var n datamodel.Node
 				var err error
-				pan := core.Guard(func() { n, err = ref.BuildRouted(eng.Proto(s, t.Name, lvl == "repr"), tree, routes, false) })
+				pan := core.Guard(func() {
+					n, err = ref.BuildRoutedDonor(eng.Proto(s, t.Name, lvl == "repr"), tree, routes, donor)
+				})
 				runs++
 				rc := fmt.Sprintf("%s-level route %d@%d", lvl, a, pos)
 				where := fmt.Sprintf("%s %s.%s value %s, %s over tree %s", eng.Name(), s.Name, t.Name, v, rc, tree)
@@ -413,7 +425,7 @@ func routeName(tree ref.Val, pos, a int) string {
 		}
 	}
 	rec(tree)
-	names := map[int]string{1: "AssignNode(basic)", 2: "AssignNode(foreign)", 3: "hint-1", 4: "hint0", 5: "hint+2", 6: "AssignNode(basic-kind)", 7: "AssembleKey.AssignString", 8: "AssembleKey.AssignNode(basic)", 9: "AssembleKey.AssignNode(foreign)"}
+	names := map[int]string{10: "AssignNode(own)", 1: "AssignNode(basic)", 2: "AssignNode(foreign)", 3: "hint-1", 4: "hint0", 5: "hint+2", 6: "AssignNode(basic-kind)", 7: "AssembleKey.AssignString", 8: "AssembleKey.AssignNode(basic)", 9: "AssembleKey.AssignNode(foreign)"}
 	return kind + ":" + names[a]
 }
 
